@@ -23,5 +23,13 @@ for d in sorted(glob.glob(os.path.join(V, "seeded", "*"))):
         if v["exit"] == 1:
             caught_by.append("%s: %s%s" % (c, ", ".join(o.split("[")[0] for o in v["first_obligations"][:2]), " (+%d)" % (v["violations"] - 2) if v["violations"] > 2 else ""))
     rows.append("| %s | %s | %s |" % (os.path.basename(d), m["what_was_changed"][:150].replace("|", "/"), "; ".join(caught_by) or "NOT CAUGHT"))
-print("| seed | change | caught by (obligation families) |\n|---|---|---|")
-print("\n".join(rows))
+table = "| seed | change | caught by (obligation families) |\n|---|---|---|\n" + "\n".join(rows)
+import sys
+if "--design" in sys.argv:
+    dp = os.path.join(V, "DESIGN.md")
+    s = open(dp).read()
+    a, b = s.index("<!-- seed-table:begin -->"), s.index("<!-- seed-table:end -->")
+    s = s[:a] + "<!-- seed-table:begin -->\n" + table + "\n" + s[b:]
+    open(dp, "w").write(s)
+else:
+    print(table)
